@@ -221,7 +221,16 @@ class Session:
             with warnings.catch_warnings():
                 warnings.simplefilter("ignore")
                 given = [self.live[i] for i in recs]
-                res = self.h.process(given, sobj)
+                try:
+                    res = self.h.process(given, sobj)
+                except ValueError as e:
+                    # windows of unequal length handed to the PSD / diffuse-field path: outside what any property promises a result
+                    # for - a library may refuse them; refusing has no side effects on the inputs either (rule Refuse)
+                    if getattr(sobj, "processing_method", "") in ("psd", "diffuse_field") and len({self.live[i].ns.n_samples for i in recs}) > 1:
+                        holder["refused"] = f"{type(e).__name__}: {e}"[:160]
+                        holder["list"] = len(given) == len(recs) and all(a is self.live[i] for a, i in zip(given, recs))
+                        return
+                    raise
             # the list the caller handed over is an input as well: same length, same recordings, same order afterwards
             holder["list"] = len(given) == len(recs) and all(a is self.live[i] for a, i in zip(given, recs))
             self.live[r], self.kind[r] = res, "res"
@@ -239,6 +248,10 @@ class Session:
         self.log("Process", dict(s=s, r=r), [r], f, recs=recs, fftslots=[2 * kf + 1, 2 * kf + 2], repeats=rep, ncontent=NCONTENT, sameN=True, listIntact=True)
         e = self.events[-1]
         e["listIntact"] = bool(holder.get("list", True))
+        if holder.get("refused"):
+            e["op"], e["new"], e["refused"] = "Refuse", [], holder["refused"]
+            self.refusals = getattr(self, "refusals", 0) + 1
+            return
         if self.failed:
             return
         n_eff = holder.get("n")
